@@ -53,6 +53,7 @@ func runStress(cfgJSON string, res *vlib.Result) {
 		return
 	}
 	measure.VerifSetManual(false)
+	measure.VerifSetChaos(true)
 	srv, err := startServer([]string{"--measure-flush-timeout=40ms", "--logging-level=error"})
 	if err != nil {
 		res.Inconclusive = append(res.Inconclusive, "server: "+err.Error())
@@ -100,6 +101,7 @@ func runStress(cfgJSON string, res *vlib.Result) {
 					return
 				}
 				vis.emit(map[string]any{"event": "WriteAck", "batch": b})
+				time.Sleep(4 * time.Millisecond) // pacing: keeps the number of batches (and the size of every query answer) bounded
 			}
 		}(w)
 	}
@@ -131,6 +133,7 @@ func runStress(cfgJSON string, res *vlib.Result) {
 					seen = append(seen, [2]int{b, n})
 				}
 				vis.emit(map[string]any{"event": "QueryEnd", "q": qid, "seen": seen})
+				time.Sleep(2 * time.Millisecond)
 			}
 		}(r)
 	}
